@@ -11,7 +11,7 @@ fn bin() -> Option<String> { std::env::var("COPIA_BIN").ok().filter(|s| !s.is_em
 struct Out { code: Option<i32>, crashed: bool, stderr: String }
 fn run(args: &[&str]) -> Out {
     let b = bin().unwrap_or_default();
-    match Command::new(&b).args(args).output() {
+    match Command::new(&b).args(args).env("RUST_BACKTRACE", "0").output() {
         Ok(o) => {
             let code = o.status.code();
             let crashed = code.is_none() || code == Some(101) || code == Some(134);
